@@ -107,6 +107,11 @@ fn run_explain_sources(args: &ExplainArgs, cli: &Cli) -> crate::Result<()> {
         loader.load_with_sources()?
     };
 
+    // The same gate as every other command: the sources of a configuration outside the
+    // documented domain are not explained as if it were in force.
+    crate::config::validate_config_semantics(&result.config)?;
+    super::context::validate_checkers(&result.config)?;
+
     let explanation = ConfigExplanation::from_load_result(&result);
     println!("{}", format_config_explanation(&explanation, args.format)?);
 
